@@ -1,11 +1,15 @@
 ---------------------------- MODULE Trace_Framer ----------------------------
 (* Trace validation of ccsds_generator executions against Framer.                                    *)
 (* Input: ndjson, one trace per line:                                                                *)
-(*   {tid, kind, rsize, skip, total, stream:[{o,b}], ev:[{ev, asked, got, n, cur, parsed, need, idx}]} *)
-(* Events: "top" "trim" "hdr" "emit" (in-repo hooks), "read" (our source object), "yield" "stop"      *)
-(* (our consumer).  Unlogged model steps (NoTrim, HdrReady, BodyReady, give-up of a bytes source) are *)
-(* silent.  The model is deterministic except for what a read returns, which the log binds, so the    *)
-(* search is linear.  Verdicts are total: every trace prints exactly one ACCEPT or REJECT line.       *)
+(*   {tid, kind, rsize, skip, total, stream:[{o,b}], ev:[{ev, asked, got, n, idx, ...}]}             *)
+(* Verdict-bearing events are the ones the property talks about, observed at the interface:          *)
+(*   "read"  (our source object served a read()/recv(): asked, got)                                  *)
+(*   "yield" (our consumer received item idx of n bytes)   "stop" (StopIteration)                    *)
+(* The loop's internal steps are silent; the in-repo hooks (top/trim/hdr/emit) are not verdicts -    *)
+(* internal accounting is not part of C02/C10 - the harness only uses them as coverage observers     *)
+(* (e.g. that the 21 MB run reached the trim branch).  The model is deterministic except for what a  *)
+(* read returns, which the log binds, so the search is linear.  Verdicts are total: every trace      *)
+(* prints exactly one ACCEPT or REJECT line.                                                         *)
 EXTENDS Framer, Json, IOUtils
 
 VARIABLES tid, l, st
@@ -25,14 +29,14 @@ TraceInit == \E t \in 1 .. Len(TLog) :
 IsEv(e) == st = "run" /\ l <= Len(Ev) /\ E.ev = e /\ l' = l + 1 /\ UNCHANGED <<tid, st>>
 Quiet == st = "run" /\ UNCHANGED <<tid, l, st>>
 
-TrTop   == IsEv("top") /\ E.parsed = parsed /\ (Top \/ TopStop)
-TrTrim  == IsEv("trim") /\ E.cur = cur /\ E.buflen = srcpos - base /\ Trim
-TrRead  == IsEv("read") /\ E.asked = Ask /\ E.got > 0 /\ (HdrRead(E.got) \/ BodyRead(E.got))
-TrEof   == IsEv("read") /\ E.asked = Ask /\ E.got = 0 /\ 0 \in Gots /\ (HdrGiveUp \/ BodyGiveUp)
-TrHdr   == IsEv("hdr") /\ Hdr /\ E.cur = cur' /\ E.need = need' /\ E.buflen = srcpos - base
-TrEmit  == IsEv("emit") /\ Emit /\ E.cur = cur' /\ E.parsed = parsed' /\ E.n = out'[Len(out')].n
-TrYield == IsEv("yield") /\ pc = "top" /\ E.idx = Len(out) /\ E.n = out[Len(out)].n /\ UNCHANGED vars
-Silent  == Quiet /\ (NoTrim \/ HdrReady \/ BodyReady \/ (kind = "bytes" /\ (HdrGiveUp \/ BodyGiveUp)))
+\* a read is accepted whenever the implementation issues it (refill policy is free, Eager = TRUE); what it
+\* returns must be consistent with the source: at most what remains, and empty only when drained
+TrRead  == IsEv("read") /\ E.got > 0 /\ ReadBy(E.got)
+TrEof   == IsEv("read") /\ E.got = 0 /\ Remaining = 0 /\ UNCHANGED vars
+\* an item reaches the consumer: it must be the model's next Emit, with the same length
+TrYield == IsEv("yield") /\ Emit /\ E.idx = Len(out') /\ E.n = out'[Len(out')].n
+\* everything else in the loop is internal (not part of the property): silent
+Silent  == Quiet /\ (Top \/ TopStop \/ Trim \/ NoTrim \/ HdrReady \/ Hdr \/ BodyReady \/ HdrGiveUp \/ BodyGiveUp)
 
 \* invariants evaluated at every consumed event (cheap forms; the O(n) ones are checked at Accept)
 LastComplete == out # <<>> =>
@@ -40,7 +44,7 @@ LastComplete == out # <<>> =>
                                             /\ o.start + o.n <= srcpos
 AccountingTop == pc = "top" => parsed = base + cur
 Good == TypeOK /\ WindowOK /\ LastComplete /\ AccountingTop /\ NoCrash
-Step == Good /\ (TrTop \/ TrTrim \/ TrRead \/ TrEof \/ TrHdr \/ TrEmit \/ TrYield \/ Silent)
+Step == Good /\ (TrRead \/ TrEof \/ TrYield \/ Silent)
 
 \* the consumer saw StopIteration: the model must be done, all invariants of the end state hold
 AcceptGuard == Good /\ st = "run" /\ l = Len(Ev) /\ E.ev = "stop" /\ pc = "done"
